@@ -530,6 +530,20 @@ pub fn gen_uow(rng: &mut Rng, slots: bool) -> Value {
     let mut slot1_open = false;
     let mut slot2_open = false;
     let mut any_overwrite = false;
+    // a fifth of the runs: a force-flush guard goes to a dropper first, then the owner keeps
+    // creating guards -- so that the guard's drop lands *inside* a later flush_guard() call
+    if rng.chance(0.2) {
+        let id = next;
+        next += 1;
+        main_ops.push(json!({"op":"force_guard","obj":id}));
+        objs.push((id, false));
+        for _ in 0..(3 + rng.below(5)) {
+            let id = next;
+            next += 1;
+            main_ops.push(json!({"op":"flush_guard","obj":id}));
+            objs.push((id, false));
+        }
+    }
     for _ in 0..n_create {
         if rng.chance(0.5) {
             val += 1 + rng.below(5);
